@@ -86,6 +86,9 @@ pub struct Case {
     /// zstd sees the damage) instead of damaging the compressed bytes
     #[serde(default)]
     pub inner: bool,
+    /// the generator was kept away from the trigger of an open finding that ends the child
+    #[serde(default)]
+    pub excluded: u64,
 }
 
 // ---------------------------------------------------------------------------------------------
@@ -581,7 +584,18 @@ impl<'a> Judge<'a> {
             }
         }
         if max_req > limit {
-            let sig = format!("c20.{}.huge_allocation", fmt.codec());
+            // where does the size come from? a length prefix / count read from the input shows up
+            // verbatim (little endian) in the stream the reader parsed
+            let stream: Vec<u8> = if fmt == Fmt::Compressed && !self.case.inner { zstd::decode_all(content).unwrap_or_default() } else { content.to_vec() };
+            let has = |needle: &[u8]| stream.windows(needle.len()).any(|w| w == needle);
+            let origin = if max_req <= u32::MAX as usize && has(&(max_req as u32).to_le_bytes()) {
+                "len_u32_from_file"
+            } else if has(&(max_req as u64).to_le_bytes()) {
+                "len_u64_from_file"
+            } else {
+                "computed"
+            };
+            let sig = format!("c20.{}.huge_allocation.{}", fmt.codec(), origin);
             let d = describe(&format!(
                 "requested a single allocation of {} bytes; the limit is max(16 MiB, 256 x {} bytes) = {} bytes",
                 max_req,
@@ -599,7 +613,7 @@ impl<'a> Judge<'a> {
 /// `panic_sig` with the message cut at the first quoted fragment (values from the file)
 fn stable_panic_sig(desc: &str) -> String {
     let (loc, msg) = desc.split_once(" :: ").unwrap_or((desc, ""));
-    let cut = msg.find(|c| c == '\'' || c == '`' || c == '"').unwrap_or(msg.len());
+    let cut = msg.find(|c| c == '\'' || c == '"').unwrap_or(msg.len());
     let sig = panic_sig(&format!("{} :: {}", loc, &msg[..cut]));
     sig.replace("  ", " ")
 }
@@ -682,6 +696,7 @@ pub fn run_case(case: &Case, obs: &mut Obs) -> Verdict {
 }
 
 fn run_case_inner(case: &Case, obs: &mut Obs) -> Verdict {
+    obs.excluded += case.excluded;
     if !alloc::installed() || !guard::installed() {
         return Verdict::Harness("C20 must run inside `chk_persist --worker C20` (counting allocator + watchdog)".into());
     }
@@ -1119,9 +1134,20 @@ fn t_pick_static(t: &mut Tape, xs: &[&'static str]) -> &'static str {
 /// Crafted JSON document in the shape `load_json` expects, with hostile members.
 pub fn gen_crafted_json(t: &mut Tape) -> String {
     use serde_json::{json, Value};
+    // sane (2 of 3): distinct names, known type names, default schema: the loader reaches the row
+    // conversion, where the hostile values are
+    let sane = t.chance(2, 3);
     let ty = |t: &mut Tape| -> Value {
-        let name = *t.pick(&["INTEGER", "VARCHAR", "CHAR", "DOUBLE PRECISION", "NUMERIC", "BOOLEAN", "DATE", "TIME", "TIMESTAMP", "SMALLINT", "BIGINT", "REAL", "FLOAT", "INTERVAL", "BLOB", "", "NULL", "weird"]);
-        let mut c = json!({"name": *t.pick(&["ID", "C1", "C1", "C2", ""]), "type": name, "nullable": t.chance(1, 2)});
+        if sane {
+            let name = *t.pick(&["INTEGER", "VARCHAR", "CHAR", "DOUBLE PRECISION", "NUMERIC", "BOOLEAN", "DATE", "TIME", "TIMESTAMP", "SMALLINT", "BIGINT", "REAL", "FLOAT", "INTEGER", "BIGINT"]);
+            let mut c = json!({"name": "?", "type": name, "nullable": true});
+            if name == "CHAR" || (name == "VARCHAR" && t.chance(1, 2)) {
+                c["max_length"] = json!(*t.pick(&[5u64, 1, 20, 2]));
+            }
+            return c;
+        }
+        let name = *t.pick(&["INTEGER", "INTEGER", "VARCHAR", "CHAR", "DOUBLE PRECISION", "NUMERIC", "BOOLEAN", "DATE", "TIME", "TIMESTAMP", "SMALLINT", "BIGINT", "REAL", "FLOAT", "INTERVAL", "BLOB", "", "NULL", "weird"]);
+        let mut c = json!({"name": *t.pick(&["ID", "C1", "C2", "C3", "C4", "C1", ""]), "type": name, "nullable": t.chance(1, 2)});
         if t.chance(1, 2) {
             c["max_length"] = match t.weighted(&[6, 1, 1, 1]) {
                 0 => json!(*t.pick(&[5u64, 1, 0, 20])),
@@ -1136,8 +1162,8 @@ pub fn gen_crafted_json(t: &mut Tape) -> String {
         }
         c
     };
-    let val = |t: &mut Tape| -> Value {
-        match t.below(12) {
+    let hostile = |t: &mut Tape| -> Value {
+        match t.below(16) {
             0 => json!(1),
             1 => json!("a"),
             2 => Value::Null,
@@ -1149,27 +1175,66 @@ pub fn gen_crafted_json(t: &mut Tape) -> String {
             8 => json!("01:02:03.1234567890123"),
             9 => json!([1, 2]),
             10 => json!({"x": 1}),
-            _ => json!(1e308),
+            11 => json!(1e308),
+            12 => json!(9223372036854775808u64),
+            13 => json!(-0.0),
+            14 => json!(32768),
+            _ => json!("ß日本"),
+        }
+    };
+    // a value that matches the declared type two times out of three
+    let val = |t: &mut Tape, ty: &str| -> Value {
+        if t.chance(1, 3) {
+            return hostile(t);
+        }
+        match ty {
+            "INTEGER" | "BIGINT" | "SMALLINT" => match t.below(6) {
+                0 => json!(1),
+                1 => json!(-7),
+                2 => json!(i64::MAX),
+                3 => json!(u64::MAX),
+                4 => json!(2.5),
+                _ => json!(40000),
+            },
+            "DOUBLE PRECISION" | "REAL" | "FLOAT" | "NUMERIC" => match t.below(4) {
+                0 => json!(1.25),
+                1 => json!(7),
+                2 => json!(1e308),
+                _ => json!(-1e-320),
+            },
+            "BOOLEAN" => json!(t.chance(1, 2)),
+            "DATE" => json!(*t.pick(&["2001-02-03", "2001-13-01", "1-1-1", ""])),
+            "TIME" => json!(*t.pick(&["01:02:03", "01:02:03.5", "24:00:00", "1:2"])),
+            "TIMESTAMP" => json!(*t.pick(&["2001-02-03 04:05:06", "2001-02-03", "x"])),
+            "INTERVAL" => json!(*t.pick(&["1 DAY", "x", ""])),
+            _ => json!(*t.pick(&["a", "", "ß日本", "aaaaaaaaaaaaaaaaaaaaaaaaa"])),
         }
     };
     let nt = t.weighted(&[1, 5, 2]);
     let mut tables = Vec::new();
     for _ in 0..nt {
         let nc = t.weighted(&[1, 4, 3, 1]);
-        let cols: Vec<Value> = (0..nc).map(|_| ty(t)).collect();
+        let mut cols: Vec<Value> = (0..nc).map(|_| ty(t)).collect();
+        if sane {
+            for (i, c) in cols.iter_mut().enumerate() {
+                c["name"] = json!(format!("C{}", i + 1));
+            }
+        }
         let nr = t.weighted(&[2, 4, 2]);
         let mut rows = Vec::new();
         for _ in 0..nr {
             let mut m = serde_json::Map::new();
             for c in &cols {
                 if t.chance(9, 10) {
-                    m.insert(c["name"].as_str().unwrap_or("").to_string(), val(t));
+                    let ty = c["type"].as_str().unwrap_or("").to_string();
+                    m.insert(c["name"].as_str().unwrap_or("").to_string(), val(t, &ty));
                 }
             }
             rows.push(Value::Object(m));
         }
-        let mut tb = json!({"name": *t.pick(&["T", "T", "U", "", "A.B"]), "columns": cols, "rows": rows});
-        if t.chance(1, 2) {
+        let tname = if sane { format!("T{}", tables.len() + 1) } else { t.pick(&["T", "T", "U", "", "A.B"]).to_string() };
+        let mut tb = json!({"name": tname, "columns": cols, "rows": rows});
+        if !sane && t.chance(1, 2) {
             tb["schema"] = json!(*t.pick(&["public", "PUBLIC", "other", ""]));
         }
         tables.push(tb);
@@ -1292,7 +1357,7 @@ impl Check for C20 {
     }
     fn cases(&self, tier: Tier) -> u64 {
         match tier {
-            Tier::Quick => 700,
+            Tier::Quick => 1_600,
             Tier::Thorough => 24_000,
         }
     }
@@ -1325,9 +1390,11 @@ impl Check for C20 {
                 if inner && fmt != Fmt::Compressed {
                     continue;
                 }
-                v.push(Case { fmt, src: Source::Valid(fixed_db.clone()), plan: Plan::TruncEvery { stride: 1, phase: 0 }, auto: false, inner });
-                v.push(Case { fmt, src: Source::Valid(fixed_db.clone()), plan: Plan::Located, auto: false, inner });
-                v.push(Case { fmt, src: Source::Valid(fixed_db.clone()), plan: Plan::SplatEvery { from: 0, to: 0 }, auto: false, inner });
+                v.push(Case { fmt, src: Source::Valid(fixed_db.clone()), plan: Plan::TruncEvery { stride: 1, phase: 0 }, auto: false, inner, excluded: 0 });
+                if fmt == Fmt::Binary || inner {
+                    v.push(Case { fmt, src: Source::Valid(fixed_db.clone()), plan: Plan::Located, auto: false, inner, excluded: 0 });
+                }
+                v.push(Case { fmt, src: Source::Valid(fixed_db.clone()), plan: Plan::SplatEvery { from: 0, to: 0 }, auto: false, inner, excluded: 0 });
             }
         }
         v
@@ -1335,18 +1402,28 @@ impl Check for C20 {
     fn build(&self, t: &mut Tape, cfg: &GenCfg) -> Case {
         let fmt = *t.pick(&[Fmt::Binary, Fmt::Json, Fmt::Sql, Fmt::Compressed]);
         let inner = fmt == Fmt::Compressed && t.chance(2, 3);
+        let mut excluded = 0u64;
         let auto = fmt != Fmt::Sql && t.chance(1, 5);
-        let kind = t.weighted(&[12, 4, 1]);
+        let kind = t.weighted(&[9, 6, 2]);
         let src = match kind {
             0 => Source::Valid(gen_db(t, &db_opts(cfg.tier)).0),
             1 => match fmt {
                 Fmt::Binary | Fmt::Compressed => {
                     let allow_deep = !cfg.avoiding(&death_sig(100, fmt, 1));
                     let allow_endless = !cfg.avoiding(&death_sig(140, fmt, 1)) && !cfg.avoiding(&death_sig(180, fmt, 1));
+                    if !allow_deep || !allow_endless {
+                        excluded += 1;
+                    }
                     Source::CraftedBin(gen_crafted_bin(t, allow_deep, allow_endless))
                 }
                 Fmt::Json => Source::Text(gen_crafted_json(t)),
-                Fmt::Sql => Source::Text(gen_crafted_sql(t, !cfg.avoiding(&death_sig(100, fmt, 2)))),
+                Fmt::Sql => {
+                    let allow_deep = !cfg.avoiding(&death_sig(100, fmt, 2));
+                    if !allow_deep {
+                        excluded += 1;
+                    }
+                    Source::Text(gen_crafted_sql(t, allow_deep))
+                }
             },
             _ => {
                 let n = t.range(0, 64) as usize;
@@ -1370,7 +1447,7 @@ impl Check for C20 {
                 0 => Plan::TruncEvery { stride: 1, phase: t.raw() % 64 },
                 1 => Plan::FlipEvery { from: t.raw(), to: 0 },
                 2 => Plan::SplatEvery { from: t.raw(), to: 0 },
-                3 => Plan::Located,
+                3 if fmt == Fmt::Binary || (fmt == Fmt::Compressed && inner) => Plan::Located,
                 _ => {
                     let n = t.range(8, 48) as usize;
                     Plan::Stacks((0..n).map(|_| (0..t.range(1, 3)).map(|_| gen_mut(t)).collect()).collect())
@@ -1385,7 +1462,7 @@ impl Check for C20 {
                 }
             },
         };
-        Case { fmt, src, plan, auto, inner }
+        Case { fmt, src, plan, auto, inner, excluded }
     }
     fn render(&self, c: &Case) -> String {
         let src = match &c.src {
